@@ -30,6 +30,10 @@ func main() {
 		usage()
 	}
 	id := os.Args[1]
+	if id == "guards" && len(os.Args) > 2 {
+		debugGuards(os.Args[2:])
+		return
+	}
 	fs := flag.NewFlagSet("smgocheck", flag.ExitOnError)
 	tier := fs.String("tier", envOr("VERIF_TIER", "quick"), "quick|thorough")
 	repo := fs.String("repo", "/repo", "repository root")
